@@ -16,7 +16,19 @@ the value's position; min-max scaled value; `preprocess(batch)[i] == preprocess(
 `get_vect_dim` = number of environments; at agent level `get_action(batch)` with exploration off
 equals `get_action` of each element alone, under permutations of the batch, of the environments and
 of the agents' order in the observation dictionary (DQN greedy action + Q-values, IPPO value
-estimates through the shared policy, MADDPG actions and centralised-critic values).
+estimates through the shared policy, MADDPG actions and centralised-critic values);
+`obs_channels_to_first` moves the channel axis of rank-3 / rank-4 arrays (values included), leaves other
+ranks alone, rejects non-arrays.
+
+Source translation (`pre_gate`, before the Lean gate): `py2lean_obs.py` translates the source text of
+`obs_channels_to_first`, `obs_to_tensor`, `maybe_add_batch_dim`, `get_vect_dim`, `preprocess_observation`
+(agilerl/utils/algo_utils.py of the tree under test; the SHAPE logic, values are cut) into
+`lean/Gen/ObsGen.lean`; `Proofs/ObsGenEq.lean` proves the generated definitions equal to the shape projection
+of the model (`maybeAddBatchDim`, `getVectDim(All)`, `preprocess`, `preprocessAll`) and `Props/C15.lean`
+restates the shape theorems over the generated definitions (`C15_source_translation_*`).  If the translator
+rejects the source or those proofs stop checking, that is a gate problem naming the broken declaration; the
+suites below then supply the failing input if there is one (else the VIOLATION line ends with
+no-failing-input-found).
 """
 from __future__ import annotations
 
@@ -28,6 +40,8 @@ from fractions import Fraction
 import numpy as np
 import torch
 
+import common
+import py2lean_obs
 from common import ROOT, Check, InfraError, ddmin, frac
 
 warnings.filterwarnings("ignore")
@@ -51,6 +65,15 @@ def use_ids(key) -> None:
     GROUPS = {}
     for a in AGENTS:
         GROUPS.setdefault(a.rsplit("_", 1)[0], []).append(a)
+
+def pre_gate(chk: Check) -> None:
+    """Regenerate lean/Gen/ObsGen.lean from the source text of the tree under test (before the Lean gate) and
+    re-check `generated = shape projection of the model` (Proofs/ObsGenEq.lean) and the theorems over the
+    generated definitions (Props/C15.lean).  A failure is a gate problem; the suites then look for the input."""
+    common.translation_gate(chk, py2lean_obs, "Gen/ObsGen.lean", ["Gen.ObsGen", "Proofs.ObsGenEq", "Props.C15"],
+                            "obs_channels_to_first, obs_to_tensor, maybe_add_batch_dim, get_vect_dim, "
+                            "preprocess_observation: shape logic")
+
 
 # findings analysed in the build round; each is probed on exactly its own input class.  A failing probe is a
 # VIOLATION unless known_findings.json lists the id as open.
@@ -915,7 +938,50 @@ def run_noncontig(case):
     return [], [], problems, ["noncontiguous"]
 
 
-RUNNERS = {"prep": run_prep, "vect": run_vect, "batchdim": run_batchdim, "totensor": run_totensor,
+def run_chfirst(case):
+    """obs_channels_to_first: the last axis of a rank-3 / rank-4 ndarray moves in front of the two spatial axes
+    (values included); other ranks pass unchanged; a dict is handled member by member (never expanded);
+    anything else is a TypeError.  Oracle only (the function has no counterpart in the hand model; its
+    source translation is checked by the Lean gate)."""
+    from agilerl.utils.algo_utils import obs_channels_to_first
+    shape, expand, cont = case["shape"], case["expand"], case["container"]
+    arr = np.arange(numel(shape), dtype=np.float32).reshape(shape)
+    problems = []
+
+    def expected(a, ex):
+        if ex:
+            a = a[None]
+        if a.ndim in (3, 4):
+            perm = list(range(a.ndim - 3)) + [a.ndim - 1, a.ndim - 3, a.ndim - 2]
+            return np.transpose(a, perm)
+        return a
+    try:
+        if cont == "numpy":
+            out = obs_channels_to_first(arr, expand)
+            want = expected(arr, expand)
+            if not isinstance(out, np.ndarray) or out.shape != want.shape or not np.array_equal(out, want):
+                problems.append(f"obs_channels_to_first({shape}, expand_dims={expand}) has shape "
+                                f"{list(getattr(out, 'shape', []))}, want {list(want.shape)} (channel axis moved, "
+                                f"values kept)")
+        elif cont == "dict":
+            out = obs_channels_to_first({"a": arr, "b": arr[..., :1] if arr.ndim else arr}, expand)
+            for key, src in (("a", arr), ("b", arr[..., :1] if arr.ndim else arr)):
+                want = expected(src, False)          # members are converted without expand_dims
+                if out[key].shape != want.shape or not np.array_equal(out[key], want):
+                    problems.append(f"obs_channels_to_first(dict)[{key!r}] has shape {list(out[key].shape)}, "
+                                    f"want {list(want.shape)}")
+        else:
+            try:
+                obs_channels_to_first(torch.from_numpy(arr), expand)
+                problems.append("obs_channels_to_first accepted a torch tensor (documented: ndarray or dict)")
+            except TypeError:
+                pass
+    except Exception as e:  # noqa: BLE001
+        problems.append(f"obs_channels_to_first raised {type(e).__name__}: {str(e)[:100]}")
+    return [], [], problems, [f"chfirst-rank{len(shape)}", "in-" + cont]
+
+
+RUNNERS = {"chfirst": run_chfirst, "prep": run_prep, "vect": run_vect, "batchdim": run_batchdim, "totensor": run_totensor,
            "ma_prep": run_ma_prep, "asm": run_asm, "critic": run_critic, "dqn_action": run_dqn_action,
            "ma_action": run_ma_action, "noncontig": run_noncontig}
 
@@ -1152,6 +1218,10 @@ def gen_cases(chk: Check):
         if extra == -1 and not p:
             continue
         cases.append({"op": "batchdim", "shape": shape, "space_shape": p, "container": rng.choice(["numpy", "torch"])})
+    for _ in range(40 if quick else 300):
+        shape = [rng.choice([1, 2, 3, 4]) for _ in range(rng.choice([0, 1, 2, 3, 3, 3, 4, 4, 5]))]
+        cases.append({"op": "chfirst", "shape": shape, "expand": rng.random() < 0.4,
+                      "container": rng.choice(["numpy", "numpy", "numpy", "dict", "torch"])})
     # multi-agent entry points; the id sets "sl", "zb", "drones" are deliberately NOT alphabetical
     def shuffled(ids):
         order = list(ids)
@@ -1258,6 +1328,18 @@ def evaluate(chk: Check, case):
     return diff, problems, tags, impl, model_out
 
 
+def safe_evaluate(chk: Check, case):
+    """`evaluate`, with an exception of the implementation outside a guarded call reported as an oracle problem
+    (a changed tree may raise anywhere; that is a finding about the tree, not a fault of the machinery)"""
+    try:
+        return evaluate(chk, case)
+    except InfraError:
+        raise
+    except Exception as e:  # noqa: BLE001
+        return None, [f"harness/implementation raised outside a guarded call: {type(e).__name__}: "
+                      f"{str(e)[:200]}"], [case["op"]], [], []
+
+
 def shrink(chk: Check, case, want_problem: bool):
     """fewer rows, then zeroed values, while the same kind of failure persists"""
     if case["op"] not in ("prep", "vect", "dqn_action") or case.get("form") in ("stepenv", "column", "badrank", "probe") \
@@ -1274,7 +1356,7 @@ def shrink(chk: Check, case, want_problem: bool):
         return c
 
     def fails(idx):
-        d, p, *_ = evaluate(chk, with_rows(idx))
+        d, p, *_ = safe_evaluate(chk, with_rows(idx))
         return bool(p) if want_problem else d is not None
 
     n = case["lead"][0]
@@ -1291,21 +1373,17 @@ def run_suite(chk: Check, cases, account=True):
     per_suite: dict = {}
     reported: set = set()
     for case in cases:
-        try:
-            diff, problems, tags, impl, model_out = evaluate(chk, case)
-        except InfraError:
-            raise
-        except Exception as e:  # noqa: BLE001
-            diff, problems, tags, impl, model_out = None, [f"harness/implementation raised outside a guarded call: "
-                                                          f"{type(e).__name__}: {str(e)[:200]}"], [case["op"]], [], []
+        diff, problems, tags, impl, model_out = safe_evaluate(chk, case)
         suite = {"prep": "preprocess", "vect": "vect-dim", "batchdim": "batch-dim", "totensor": "to-tensor",
                  "ma_prep": "multi-agent-preprocess", "asm": "assemble-disassemble", "critic": "critic-stack",
-                 "dqn_action": "agent-oracle", "ma_action": "agent-oracle", "noncontig": "to-tensor"}[case["op"]]
+                 "dqn_action": "agent-oracle", "ma_action": "agent-oracle", "noncontig": "to-tensor",
+                 "chfirst": "channels-first"}[case["op"]]
         s = per_suite.setdefault(suite, [0, 0])
         s[0] += 1
         if account:
             nontrivial = case["op"] in ("ma_prep", "asm", "critic", "ma_action", "dqn_action") or \
-                (case.get("form") not in ("unbatched", None))
+                (case.get("form") not in ("unbatched", None)) or \
+                (case["op"] == "chfirst" and len(case["shape"]) >= 3)
             chk.case(case, nontrivial=nontrivial,
                      sample={k: case[k] for k in ("op", "space", "form", "lead", "container", "algo", "kind", "ids", "E")
                              if k in case} if chk.rng.random() < 0.05 or chk.evaluations < 2 else None,
@@ -1318,7 +1396,7 @@ def run_suite(chk: Check, cases, account=True):
         if fid is not None and fid in reported:
             continue
         small = shrink(chk, case, bool(problems))
-        d2, p2, _, impl2, model2 = evaluate(chk, small)
+        d2, p2, _, impl2, model2 = safe_evaluate(chk, small)
         if not (p2 if problems else d2):
             small, d2, p2, impl2, model2 = case, diff, problems, impl, model_out
         replay_obj = {"case": small, "impl": [str(x)[:400] for x in (impl2 if isinstance(impl2, list) else [impl2])],
@@ -1487,7 +1565,7 @@ def replay(chk: Check, path: str) -> int:
     c = json.loads(open(path).read())
     c = c.get("replay", c)
     case = c.get("case", c)
-    diff, problems, _, impl, model = evaluate(chk, case)
+    diff, problems, _, impl, model = safe_evaluate(chk, case)
     print(json.dumps({"case": case, "model_diff": diff, "oracle_problems": problems,
                       "impl": [str(x)[:300] for x in (impl if isinstance(impl, list) else [impl])],
                       "model": model}, indent=1, default=str))
